@@ -804,14 +804,19 @@ Section loops.
     | x :: [] => do x' <- f x; Ok [x']
     | x :: r => do r' <- app_last r; Ok (x :: r')
     end.
+  Fixpoint app_tail (l : list pblock) : res (list pblock) :=
+    match l with
+    | [] => Ok [BPara lr [i]]
+    | x :: [] => match x with
+                 | BPara _ _ => do x' <- f x; Ok [x']
+                 | _ => Ok [x; BPara lr [i]]
+                 end
+    | x :: r => do r' <- app_tail r; Ok (x :: r')
+    end.
   Fixpoint app_item (l : list (list pblock)) : res (list (list pblock)) :=
     match l with
     | [] => Panic "append_inline: no item"
-    | it :: [] =>
-        match it with
-        | [] => Ok [[BPara lr [i]]]
-        | _ => do it' <- app_last it; Ok [it']
-        end
+    | it :: [] => do it' <- app_tail it; Ok [it']
     | it :: r => do r' <- app_item r; Ok (it :: r')
     end.
 End loops.
@@ -840,11 +845,21 @@ Proof.
     now rewrite IH.
 Qed.
 
+Lemma app_tail_ext (f g : pblock -> res pblock) i lr l :
+  Forall (fun x => f x = g x) l -> app_tail f i lr l = app_tail g i lr l.
+Proof.
+  induction 1 as [|x t Hx Ht IH]; [reflexivity|]. destruct t as [|y t].
+  - cbn [app_tail]. destruct x; try reflexivity. now rewrite Hx.
+  - change (app_tail f i lr (x :: y :: t)) with (do r' <- app_tail f i lr (y :: t); Ok (x :: r')).
+    change (app_tail g i lr (x :: y :: t)) with (do r' <- app_tail g i lr (y :: t); Ok (x :: r')).
+    now rewrite IH.
+Qed.
+
 Lemma app_item_ext (f g : pblock -> res pblock) i lr items :
   Forall (Forall (fun x => f x = g x)) items -> app_item f i lr items = app_item g i lr items.
 Proof.
   induction 1 as [|it t Hit Ht IH]; [reflexivity|]. destruct t as [|it' t].
-  - cbn [app_item]. destruct it as [|x u]; [reflexivity|]. now rewrite (app_last_ext f g _ Hit).
+  - cbn [app_item]. now rewrite (app_tail_ext f g i lr _ Hit).
   - change (app_item f i lr (it :: it' :: t)) with (do r' <- app_item f i lr (it' :: t); Ok (it :: r')).
     change (app_item g i lr (it :: it' :: t)) with (do r' <- app_item g i lr (it' :: t); Ok (it :: r')).
     now rewrite IH.
